@@ -329,6 +329,24 @@ def _run(ctx):
             g1.fail("C10.G1:mode-select", g.path, common.span_of_block_term(g, b), "a MaxSpreadAssertion exit is not conditioned on max_spread being Some")
             continue
         mode = "belief" if both else "spread"
+        if mode == "spread":
+            # the pool-spread test is the fallback for `belief_price == None` only: with a belief price given, the property
+            # promises that a return of at least (offer/p)(1-s) is never rejected by this guard
+            def _is(c, pi, var):
+                return c["cond"][0] == "discr" and set(ctx.roots(c["cond"][1])) == {P_(g, pi)} and c["allowed"] == [var]
+            none_b = any(_is(c, belief_i, "None") for c in conds)
+            if not none_b:
+                # `if let (Some(p), Some(s)) = (..) {..} else if let Some(s) = max_spread` reaches the fallback over two
+                # else-edges (belief None | max_spread None), which no single control condition states: decide it per path
+                pcs = common.path_conjunctions(P, g, b)
+                if pcs is not None:
+                    feas = [pc for pc in pcs if not any(_is(c, pi, "None") for c in pc for pi in (belief_i, spread_i)
+                                                        if any(_is(c2, pi, "Some") for c2 in pc))]
+                    none_b = bool(feas) and all(any(_is(c, belief_i, "None") for c in pc) for pc in feas)
+            if not none_b:
+                g1.fail("C10.G1:spread-mode-unconditional", g.path, common.span_of_block_term(g, b),
+                        "the pool-spread rejection is not restricted to calls without a belief price: with belief_price given, a swap whose return satisfies the belief bound can still be rejected")
+                continue
         modes[mode] = (b, cmpc)
     if sorted(modes) != ["belief", "spread"]:
         g1.fail("C10.G1:modes", g.path, g.span, "rejecting exits found for modes %s, expected belief and spread" % sorted(modes))
